@@ -21,6 +21,7 @@ import (
 	"io"
 	"net"
 	"strconv"
+	"strings"
 
 	"github.com/cybergarage/go-logger/log"
 	"github.com/cybergarage/go-redis/redis/auth"
@@ -85,7 +86,7 @@ func (server *Server) SetCommandHandler(handler UserCommandHandler) {
 
 // RegisterExexutor sets a command executor.
 func (server *Server) RegisterExexutor(cmd string, executor Executor) {
-	server.commandExecutors[cmd] = executor
+	server.commandExecutors[strings.ToUpper(cmd)] = executor
 }
 
 // Start starts the server.
